@@ -40,10 +40,34 @@ def reply_serial(spec):
     return int(spec.split(".")[2])
 
 
-def gen_ops(r, arrivals, style):
-    """operations interleaved with the arrivals, then a complete drain"""
+SPLITS = ["1", "3", "4", "7", "8", "11", "12", "13", "15", "16", "17", "20", "24", "31", "40",      # fixed header, length fields, header fields
+          "b-9", "b-2", "b-1", "b+0", "b+1", "b+3", "b+4", "b+5", "b+9", "b+20", "b+40", "e-1", "e-2", "e-7"]   # padding, boundary, body
+
+
+def split_class(k):
+    if k[0] == "b":
+        return "split:body" if k[1] == "+" and k != "b+0" else ("split:header/body boundary" if k == "b+0" else "split:header fields/padding")
+    if k[0] == "e":
+        return "split:body"
+    return "split:fixed header" if int(k) < 16 else "split:header fields/padding"
+
+
+def gen_ops(r, arrivals, style, split=0.0):
+    """operations interleaved with the arrivals, then a complete drain. With probability [split] an arrival
+    is written by the peer in two pieces (ap:<spec>:<k> ... af) with client operations in between; only
+    client operations may stand between the two pieces (the pieces are consecutive in the byte stream)."""
     serials = [reply_serial(a) for a in arrivals if reply_serial(a)]
     ops = []
+
+    def arrive(a):
+        if r.random() < split:
+            ops.append("ap:%s:%s" % (a, r.choice(SPLITS)))
+            # mostly operations that read from the socket while only the first piece is there
+            for _ in range(r.choice([1, 1, 2, 3])):
+                ops.append(r.choice(["ra", "ra", "ro", "ws", "wc", "wr:%d" % (r.choice(serials) if serials else 97), some_op()]))
+            ops.append("af")
+        else:
+            ops.append("a:" + a)
 
     def some_op():
         k = r.random()
@@ -65,11 +89,11 @@ def gen_ops(r, arrivals, style):
 
     for a in arrivals:
         if style == "after_all":
-            ops.append("a:" + a)
+            arrive(a)
             continue
         for _ in range(r.choice([0, 0, 1, 1, 2, 3]) if style == "mixed" else r.choice([0, 1])):
             ops.append(some_op())
-        ops.append("a:" + a)
+        arrive(a)
     for _ in range(r.choice([0, 1, 2, 4, 6]) if style != "drain_only" else 0):
         ops.append(some_op())
     # complete drain
@@ -113,13 +137,21 @@ def property_verdict(ops, toks):
     if len(toks) != len(ops):
         return "harness produced %d results for %d operations" % (len(toks), len(ops))
     arrived = {}          # ident -> (index of arrival, accepted)
+    part = None           # spec of the arrival whose first piece has been written
     order = []
     handed = []
     errors = []
     for i, (op, (tok, sent)) in enumerate(zip(ops, toks)):
         p = op.split(":")
         errors += sent
-        if p[0] == "a":
+        if p[0] == "ap":
+            part = p[1]
+            if tok != "p":
+                return "harness could not write the first piece of an arrival (%s)" % tok[:40]
+            continue
+        if p[0] in ("a", "af"):
+            if p[0] == "af":
+                p = ["a", part]
             f = p[1].split(".")
             ident = "%s.%s.%s.%s" % (f[0], f[1], f[2], f[3])
             arrived[ident] = (i, tok == "+", p[1])
@@ -173,7 +205,18 @@ def property_verdict(ops, toks):
 
 
 def run_batch(ctx, exe, drv, cases, kind):
-    lines = ["run %d %s" % (f, ",".join(ops)) for f, ops in cases]
+    # the model sees an arrival when it is complete: `ap` is invisible to it, `af` is the arrival
+    def model_ops(ops):
+        out, part = [], None
+        for o in ops:
+            if o.startswith("ap:"):
+                part = o.split(":")[1]
+            elif o == "af":
+                out.append("a:" + part)
+            else:
+                out.append(o)
+        return out
+    lines = ["run %d %s" % (f, ",".join(model_ops(ops))) for f, ops in cases]
     ok, mout, err = vlib.par_run_lines(drv, [], lines)
     if not ok:
         ctx.tie_broken("extracted model driver c14 crashed", err)
@@ -182,8 +225,18 @@ def run_batch(ctx, exe, drv, cases, kind):
     exp = []
     for (f, ops), mo in zip(cases, mout):
         o, e = mo.split(" ", 1)
-        hl.append("run %d %s" % (f, o))
-        exp.append(e)
+        mo_ops, mo_res = iter(o.split(",")), iter(e.split(","))
+        h_ops, h_exp = [], []
+        for op in ops:
+            if op.startswith("ap:"):
+                h_ops.append(op)
+                h_exp.append("p|")
+            else:
+                m_op, m_res = next(mo_ops), next(mo_res)
+                h_ops.append("af" if op == "af" else m_op)
+                h_exp.append(m_res)
+        hl.append("run %d %s" % (f, ",".join(h_ops)))
+        exp.append(",".join(h_exp))
     ok, iout, err = vlib.par_run_lines(exe, [], hl)
     if not ok:
         ctx.tie_broken("harness c14 crashed or hung", err)
@@ -191,8 +244,21 @@ def run_batch(ctx, exe, drv, cases, kind):
     for (f, _), line, e, io in zip(cases, hl, exp, iout):
         ops = line.split(" ", 2)[2].split(",")
         toks = parse_tokens(io)
-        narr = sum(1 for o in ops if o.startswith("a:"))
-        nrej = sum(1 for o, t in zip(ops, toks) if o.startswith("a:") and t[0] == "-")
+        narr = sum(1 for o in ops if o.startswith("a:") or o == "af")
+        nrej = sum(1 for o, t in zip(ops, toks) if (o.startswith("a:") or o == "af") and t[0] == "-")
+        splits = [o.split(":")[2] for o in ops if o.startswith("ap:")]
+        ctx.count("sequences with a split arrival", 1 if splits else 0)
+        for k in splits:
+            ctx.count(split_class(k))
+        # reads attempted while only the first piece of an arrival is on the socket
+        inside = False
+        for o in ops:
+            if o.startswith("ap:"):
+                inside = True
+            elif o == "af":
+                inside = False
+            elif inside and o[:2] in ("wr", "ws", "wc", "ro", "ra"):
+                ctx.count("socket reads between the two pieces of an arrival")
         nontrivial = narr >= 2 and any(o[:2] in ("wr", "ws", "wc", "ro", "ra") for o in ops[:-1])
         ctx.case((f, tuple(ops)), nontrivial=nontrivial,
                  sample={"filter": f, "ops": ",".join(ops)[:500], "results": io[:500]} if kind == "random" and len(ops) < 30 else None)
@@ -220,7 +286,9 @@ def run(ctx):
     ctx.rule = ("case = (filter index 0..15, operation sequence): arrivals are up to 6 messages of mixed kinds (calls, signals, replies, "
                 "errors; distinct serials and reply serials; members from a pool so that the member filters split them), all "
                 "permutations of message sets of size <= 4 and random orders of size 5-6, interleaved with generated try_*/wait_*/"
-                "refill_once/refill_all operations, followed by a complete drain (refill_all, then try_get_signal/call n+1 times and "
+                "refill_once/refill_all operations (in about a third of the sequences at least one arrival is written by the peer in two "
+                "pieces - cut inside the fixed header, the header fields, the padding, at the header/body boundary or inside the body - "
+                "with try/wait/refill operations between the pieces; the model sees such an arrival when it is complete), followed by a complete drain (refill_all, then try_get_signal/call n+1 times and "
                 "try_get_response twice per reply serial). Blocking operations use a 2 s timeout (standing in for Infinite) when the model finds the "
                 "message, Nonblock when it does not and the socket is non-empty, Duration(1ms) on an empty socket. non-trivial = at "
                 "least two arrivals and a wait/refill operation before the final one; distinct = distinct (filter, sequence)")
@@ -273,8 +341,17 @@ def run(ctx):
     for _ in range(25000 if thorough else 1200):
         msgs = gen_messages(r, r.choice([1, 2, 3, 4, 5, 6, 6]))
         r.shuffle(msgs)
-        cases.append((r.randrange(NFILTERS), gen_ops(r, msgs, r.choice(["mixed", "mixed", "light", "after_all", "drain_only"]))))
+        cases.append((r.randrange(NFILTERS), gen_ops(r, msgs, r.choice(["mixed", "mixed", "light", "after_all", "drain_only"]),
+                                                     split=r.choice([0.0, 0.0, 0.0, 0.25, 0.6]))))
     run_batch(ctx, exe, drv, cases, "random")
+
+    # arrivals written in two pieces: every cut position class, reads in between
+    cases = []
+    for _ in range(8000 if thorough else 500):
+        msgs = gen_messages(r, r.choice([1, 2, 3, 4, 5]))
+        r.shuffle(msgs)
+        cases.append((r.randrange(NFILTERS), gen_ops(r, msgs, r.choice(["mixed", "light", "after_all"]), split=r.choice([0.5, 1.0]))))
+    run_batch(ctx, exe, drv, cases, "split arrivals")
     ctx.exhaustive = False
 
 
